@@ -25,7 +25,7 @@ ERR_MARK = [
 def err_ok(model_err, observed):
     if model_err.startswith("todo:"):
         msg = model_err[len("todo:"):].strip('"')
-        return msg in observed
+        return observed.rstrip().endswith(msg)       # the token itself is quoted earlier in the text: the message is what the error ends with
     for k, sub in ERR_MARK:
         if model_err == k:
             return sub in observed
@@ -228,9 +228,21 @@ def compare_case(case, res):
     return None
 
 
-def run_family(pid, tier, family, cfgname, v, rng, nontrivial=None, timeout=1500, tags_of=None, counters=False):
+def run_ext(pid, tier, v, rng, n=None):
+    """larger seeded random configurations and histories (vlib/randcfg.py), judged by Container.tla through family ext"""
+    from .. import randcfg
+    n = n or (60 if tier == "quick" else 800)
+    cases = []
+    for _ in range(n):
+        cfg = randcfg.runtime_cfg(rng)
+        cases.append({"cfg": cfg, "ops": randcfg.runtime_ops(rng, cfg)})
+    return run_family(pid, tier, "ext", "MC_Container_ext.cfg", v, rng, timeout=3000,
+                      extra_files={"ext_cases.ndjson": "\n".join(json.dumps(c) for c in cases) + "\n"})
+
+
+def run_family(pid, tier, family, cfgname, v, rng, nontrivial=None, timeout=1500, tags_of=None, counters=False, extra_files=None):
     """generic R2 loop for one MC_Container family; returns stats"""
-    r = core.run_tlc("MC_Container.tla", cfgname, timeout=timeout)
+    r = core.run_tlc("MC_Container.tla", cfgname, timeout=timeout, extra_files=extra_files)
     if r.violation:
         raise core.InfraError("TLC: design-level invariant violated in MC_Container/%s:\n%s" % (family, r.raw_tail[-2500:]))
     rp = Replayer("%s-%s" % (pid, family), rng, counters=counters)
@@ -296,7 +308,8 @@ def run_c02(tier):
     v = core.Verdict(pid)
     stats = [run_family(pid, tier, "build", "MC_Container_build.cfg", v, rng),
              run_family(pid, tier, "forms", "MC_Container_forms.cfg", v, rng),
-             run_family(pid, tier, "lits", "MC_Container_lits.cfg", v, rng)]
+             run_family(pid, tier, "lits", "MC_Container_lits.cfg", v, rng),
+             run_ext(pid, tier, v, rng)]
     return finish(pid, tier, t0, v, stats, "model_checking",
                   "TLC enumerates every choice vector that differs from the base service in at most two of the dimensions "
                   "creation method x first argument form x second argument form x fields x calls/withers x scope x decorators x getter "
@@ -319,7 +332,8 @@ def run_c04(tier):
     v = core.Verdict(pid)
     fam = "tagsq" if tier == "quick" else "tags"
     stats = [run_family(pid, tier, fam, "MC_Container_%s.cfg" % fam, v, rng, timeout=3000,
-                        nontrivial=lambda c: len(c["cfg"]["decorators"]) > 0 or len(c.get("files") or []) > 1)]
+                        nontrivial=lambda c: len(c["cfg"]["decorators"]) > 0 or len(c.get("files") or []) > 1),
+             run_ext(pid, tier, v, rng)]
     return finish(pid, tier, t0, v, stats, "model_checking",
                   "TLC enumerates three tagged services with every assignment of priorities from the family's set (absent, negative, "
                   "equal, large) and carry bits for a second tag, a consumer of `!tagged t1` and `!tagged t2`, eight decorator sequences "
